@@ -609,11 +609,15 @@ class Interp(BuiltinsMixin):
                 if not (isinstance(sig, Raise) and sig.implicit):
                     delta = [(self.snapshot(c, q), pol)
                              for (c, pol) in q.pc[entry_pc_len:]]
-                    exits.append(App('exists',
-                                     loop.var if loop.var is not None
-                                     else Const(None), loop.iterable,
-                                     Tup(Tup((c, Const(pol)))
-                                         for (c, pol) in delta)))
+                    ex = App('exists',
+                             loop.var if loop.var is not None
+                             else Const(None), loop.iterable,
+                             Tup(Tup((c, Const(pol)))
+                                 for (c, pol) in delta))
+                    exits.append(ex)
+                    q.notes.append(('exit-conds', tuple(q.pc[entry_pc_len:])))
+                    del q.pc[entry_pc_len:]
+                    q.pc.append((ex, True))
         # variables assigned in the body: widened after the loop, unless
         # they refer to containers
         f = after.heap[fr]
